@@ -55,6 +55,11 @@ def systematic():
     out.append({"origin": "96h-from-the-confirmed-login", "steps": [L("alice", "p1")] + down + [H, L("alice", "p1"), H, L("alice", "p1"), L("alice", "p1")] + up + [L("alice", "p1")]})
     out.append({"origin": "offline-logins-do-not-extend", "steps": [L("alice", "p1"), H] + down + [L("alice", "p1"), L("alice", "p1"), H, L("alice", "p1")] + up +
                 [L("alice", "p1"), H] + down + [L("alice", "p1"), H, L("alice", "p1")]})
+    SY, DO, DR = {"op": "sync"}, {"op": "dboutage"}, {"op": "dbrecover"}
+    out.append({"origin": "replica-serves-during-store-outage", "steps": [L("alice", "p1"), SY] + down + [DO, L("alice", "p1"), L("alice", "p2"), DR] + up + [L("alice", "p1")]})
+    out.append({"origin": "evicted-hash-leaves-replica", "steps": [L("alice", "p1"), SY, {"op": "change", "user": "alice", "pw": "p2"}, L("alice", "p1"), SY] + down +
+                [DO, L("alice", "p1"), L("alice", "p2"), DR, L("alice", "p1")] + up + [L("alice", "p2"), SY] + down + [DO, L("alice", "p2"), L("alice", "p1")]})
+    out.append({"origin": "replica-ages-too", "steps": [L("bob", "p1"), SY, {"op": "halflife", "user": "bob"}, {"op": "halflife", "user": "bob"}] + down + [DO, L("bob", "p1"), DR, L("bob", "p1")]})
     for how in ("swapsubject", "alterhash", "extendcolumn", "resign"):
         out.append({"origin": "tamper-" + how, "steps": [L("alice", "p1"), L("bob", "p1"), {"op": "expire", "user": "alice"} if how == "extendcolumn" else L("bob", "p1"),
                                                         {"op": "tamper", "user": "alice", "how": how}] + down + [L("alice", "p1"), L("alice", "p3"), L("bob", "p1")]})
@@ -68,7 +73,7 @@ def run(tier, seed, work, replay):
     E.tlc_mc(work, "KMPassword", "MC_KMPassword.cfg", cov)
     if tier == "thorough":
         E.tlc_mc(work, "KMPassword", "MC_KMPassword_thorough.cfg", cov, timeout=1800)
-    for neg in ("Neg_KMPassword_CacheDecidesOnReject.cfg", "Neg_KMPassword_IgnoresExpiry.cfg", "Neg_KMPassword_OfflineRefreshes.cfg"):
+    for neg in ("Neg_KMPassword_CacheDecidesOnReject.cfg", "Neg_KMPassword_IgnoresExpiry.cfg", "Neg_KMPassword_OfflineRefreshes.cfg", "Neg_KMPassword_SyncKeepsEvicted.cfg"):
         r = E.tlc(work, "KMPassword", neg, timeout=300, tag=neg)
         if not r["violated"]:
             raise E.Inconclusive("negative control %s found no violation" % neg)
